@@ -329,7 +329,18 @@ func (g *gen) genError(typs []types.Type) error {
 		p.P("return %s, err", strings.Join(zeros, ", "))
 		p.Out()
 		p.P("}")
-		p.P("return f()")
+		// when f fails its values are not passed on: next to an error every result is a zero value, as in compose.
+		vars := make([]string, len(outTyps))
+		for i := range vars {
+			vars[i] = "out" + strconv.Itoa(i)
+		}
+		p.P("%s, err := f()", strings.Join(vars, ", "))
+		p.P("if err != nil {")
+		p.In()
+		p.P("return %s, err", strings.Join(zeros, ", "))
+		p.Out()
+		p.P("}")
+		p.P("return %s, nil", strings.Join(vars, ", "))
 		p.Out()
 		p.P("}")
 	}
